@@ -14,6 +14,10 @@ def graph(N, NK, tag='e'):
     return [[z3.Bool(f'{tag}_{i}_{j}') for j in range(NK)] for i in range(N)]
 
 
+def direct_bits(N, NK):
+    return [[z3.Bool(f'direct_{i}_{j}') for j in range(NK)] for i in range(N)]
+
+
 def reach(E, N, NK):
     """R[i][j]: id j is reachable from node i through >= 1 parent links (ids without a record are leaves)"""
     R = [[E[i][j] for j in range(NK)] for i in range(N)]
@@ -30,7 +34,8 @@ def setup(ctx, N, NK, E):
     C.install(ex)
     key = lambda j: ex.const_int(j, 'u8')
     heap = {f'KEY{j}': key(j) for j in range(NK)}
-    nodes = C.cmap([Agg('tuple', None, None, [key(i), Agg('struct', '~tcnode', None, [key(i), Agg('array', None, None, [BoolV(E[i][j]) for j in range(NK)])])]) for i in range(N)])
+    D = direct_bits(N, NK)
+    nodes = C.cmap([Agg('tuple', None, None, [key(i), Agg('struct', '~tcnode', None, [key(i), Agg('array', None, None, [BoolV(E[i][j]) for j in range(NK)]), Agg('array', None, None, [BoolV(D[i][j]) for j in range(NK)])])]) for i in range(N)])
     heap['NODES'] = nodes
 
     def node(st, a):
@@ -51,6 +56,14 @@ def setup(ctx, N, NK, E):
             return None
         return C.sym_iter([(z3.simplify(n.fields[1].fields[j].t), Ref(0, ('local', f'KEY{j}'))) for j in range(NK)])
     ex.stub(r'<V as (transitive_closure::)?TCNode<K>>::out_edges$', out_edges, 'TCNode::out_edges: iterator over the ids whose (symbolic) edge bit is set')
+
+    def direct_edges(ex_, st, c, A):
+        # the direct parents are an arbitrary subset of the out-edges (for Entity: parents vs parents + indirect ancestors)
+        n = node(st, A[0])
+        if n is None:
+            return None
+        return C.sym_iter([(z3.simplify(z3.And(n.fields[1].fields[j].t, n.fields[2].fields[j].t)), Ref(0, ('local', f'KEY{j}'))) for j in range(NK)])
+    ex.stub(r'<V as (transitive_closure::)?TCNode<K>>::direct_edges$', direct_edges, 'TCNode::direct_edges: iterator over an arbitrary (symbolic) subset of the out-edges')
 
     def add_edge(ex_, st, c, A):
         n, k = node(st, A[0]), C.ckey(ex_, st, A[1])
@@ -91,7 +104,10 @@ def final_edges(ex, o, N, NK):
 
 def replay(ctx, name, role, N, NK, E, model, mode, why):
     edges = [[i, j] for i in range(N) for j in range(NK) if z3.is_true(model.eval(E[i][j], model_completion=True))]
-    a = ctx.native.ask({'op': 'tc', 'nodes': N, 'keys': NK, 'edges': edges, 'mode': mode})
+    D = direct_bits(N, NK)
+    # enforce mode: which of the claimed ancestors are direct parents (the rest are stored as indirect ancestors); compute mode: every link is a parent
+    direct = [e for e in edges if mode != 'enforce' or z3.is_true(model.eval(D[e[0]][e[1]], model_completion=True))]
+    a = ctx.native.ask({'op': 'tc', 'nodes': N, 'keys': NK, 'edges': edges, 'direct': direct, 'mode': mode})
     adj = {i: {j for (x, j) in edges if x == i} for i in range(N)}
     R = {i: set(adj[i]) for i in range(N)}
     for _ in range(N + 1):
@@ -113,8 +129,8 @@ def replay(ctx, name, role, N, NK, E, model, mode, why):
             if got != R[i]:
                 problems.append(f'ancestors of n{i} = {sorted(got)}, reachable through parent links = {sorted(R[i])}')
     if problems:
-        return ctx.violation(name, role, f'{why}: store with parent links {edges} ({N} entities, ids {N}..{NK - 1} without a record, TC mode {mode}): ' + '; '.join(problems[:2]),
-                             {'op': 'tc', 'nodes': N, 'keys': NK, 'edges': edges, 'mode': mode, 'expected_ok': want_ok, 'expected_ancestors': {i: sorted(R[i]) for i in range(N)}})
+        return ctx.violation(name, role, f'{why}: store with ancestor links {edges} of which {direct} are direct parents ({N} entities, ids {N}..{NK - 1} without a record, TC mode {mode}): ' + '; '.join(problems[:2]),
+                             {'op': 'tc', 'nodes': N, 'keys': NK, 'edges': edges, 'direct': direct, 'mode': mode, 'expected_ok': want_ok, 'expected_ancestors': {i: sorted(R[i]) for i in range(N)}})
     return ctx.mismatch(name, f'{why}; abstract counterexample with parent links {edges}, but the real store agrees with reachability')
 
 
@@ -198,7 +214,7 @@ def run(ctx):
                    'larger stores are outside the claim', 'recursion of cyclic_tc_internal / add_ancestors bounded by the number of entities (never reached: the executor aborts otherwise)']
     ctx.assumptions += ['std HashMap / HashSet / Vec / Range and slice::sort_by modelled on concrete keys (mir2smt/containers.py); maps and sets iterate in insertion order - one of the orders a hash container may produce, '
                         'so order-DEPENDENT bugs that need another order are outside the claim (the algorithms are specified order-independently)',
-                        'a node is (id, row of edge bits); TCNode::{get_key, out_edges, has_edge_to, add_edge_to} are the four obvious operations on the row (for Entity: ancestors = parents + indirect ancestors)',
+                        'a node is (id, row of edge bits); TCNode::{get_key, out_edges, has_edge_to, add_edge_to} are the four obvious operations on the row, direct_edges an arbitrary symbolic subset of it (for Entity: parents vs parents + indirect ancestors)',
                         'node ids are machine integers: equality and hashing of EntityUID are outside the claim',
                         'store edits run Entities::{remove,add,upsert}_entities, repair_tc, add_ancestors, enforce_dag_from_tc_for and the real Entity / TCNode-for-Arc<Entity> method bodies; the two HashSet<EntityUID> fields of an entity '
                         'are sets with symbolic membership; pre-state = canonical closed store (indirect ancestors = reachable and not a direct parent; the public constructors give new entities parents only); '
